@@ -575,6 +575,13 @@ class UnitDatabase(Singleton):
             caption=caption,
         )
 
+        if category in self.categories_to_quantity_types:
+            # Replacing a category: quantities already interned for it embed the previous
+            # category info (quantity type, limits, conversion), so they can't be handed out again.
+            self.quantities_cache.clear()
+        # Verdicts memoized before this registration (including negative ones) may now be wrong.
+        self._category_unit_valid.clear()
+
         self.categories_to_quantity_types[category] = info
         return info
 
@@ -790,6 +797,8 @@ class UnitDatabase(Singleton):
             )
         else:
             self.unit_to_unit_info[unit] = info
+        # A unit looked up before being registered was memoized as invalid for its categories.
+        self._category_unit_valid.clear()
         quantity_type_list = self.quantity_types.setdefault(quantity_type, [])
 
         if unit in [q.unit for q in quantity_type_list]:
